@@ -252,6 +252,13 @@ def _prev_sig(toks, k):
     return toks[j]
 
 
+def _prev_sig_idx(toks, k):
+    j = k - 1
+    while j >= 0 and toks[j].kind in ("ws", "comment"):
+        j -= 1
+    return j
+
+
 def _next_sig_idx(toks, k):
     j = k + 1
     while j < len(toks) and toks[j].kind in ("ws", "comment"):
